@@ -130,16 +130,17 @@ pub fn check(c: &Case) -> Outcome {
             Err(why) => return fail(format!("`{src}` over map {:?}: {why}; log {:?}", c.range, log)),
         }
     }
-    let mut st = St::new(&mvars, c.table.clone());
-    st.map_order_known = true;
-    let model = eval(&e, &mut st);
-    if let Err(Stop::Unsupported(w)) = &model {
+    let variants = crate::props::c03::model_variants(&e, &mvars, &c.table, true);
+    if let Err(Stop::Unsupported(w)) = &variants[0].0 {
         return Outcome::Skip(w);
     }
+    // exists_one: whether elements after the second hit are visited is not asserted; either variant is accepted
+    let k = variants.iter().position(|(m, st)| st.log == log && agree(m, &got)).unwrap_or(0);
+    let (model, st) = (&variants[k].0, &variants[k].1);
     if log != st.log {
         return fail(format!("`{src}` xs={:?} table={:?}: elements the fold must visit {:?}, elements visited {:?}; model {:?}, interpreter {}", c.range, c.table, st.log, log, model, got.show()));
     }
-    if !agree(&model, &got) {
+    if !agree(model, &got) {
         return fail(format!("`{src}` xs={:?} table={:?}: defining fold gives {:?}, interpreter gives {}", c.range, c.table, model, got.show()));
     }
     let len = match &c.range {
@@ -177,6 +178,45 @@ pub struct MapCase {
     pub range: V,
     pub body: u8,
     pub literal_range: bool,
+}
+
+#[derive(Clone, Debug, Serialize, Deserialize)]
+pub struct Hetero {
+    pub list: Vec<V>,
+    /// a context variable named like the iteration variable
+    pub outer: Option<V>,
+    pub form: u8,
+}
+
+pub fn check_hetero(c: &Hetero) -> Outcome {
+    let xs = V::List(c.list.clone());
+    let mut vars = vec![("xs".to_string(), xs.clone())];
+    if let Some(o) = &c.outer {
+        vars.push(("x".to_string(), o.clone()));
+    }
+    // bodies that hand the element back untouched, so the result shows exactly what the variable denoted
+    let (src, e): (&str, E) = match c.form {
+        0 => ("xs.map(x, x)", E::Macro(Mac::Map, b(E::var("xs")), "x".into(), vec![x()])),
+        1 => ("xs.filter(x, true)", E::Macro(Mac::Filter, b(E::var("xs")), "x".into(), vec![E::Lit(V::Bool(true))])),
+        2 => ("xs.map(x, true, [x])", E::Macro(Mac::Map, b(E::var("xs")), "x".into(), vec![E::Lit(V::Bool(true)), E::List(vec![x()])])),
+        3 => ("xs.map(x, xs.map(x, x))", E::Macro(Mac::Map, b(E::var("xs")), "x".into(), vec![E::Macro(Mac::Map, b(E::var("xs")), "x".into(), vec![x()])])),
+        _ => ("[xs.map(x, x), xs.filter(x, x == x)]", E::List(vec![E::Macro(Mac::Map, b(E::var("xs")), "x".into(), vec![x()]), E::Macro(Mac::Filter, b(E::var("xs")), "x".into(), vec![E::bin(Op::Eq, x(), x())])])),
+    };
+    debug_assert_eq!(e.render().replace(['(', ')'], ""), src.replace(['(', ')'], ""));
+    let variants = crate::props::c03::model_variants(&e, &vars, &vec![], false);
+    let model = &variants[0].0;
+    if let Err(Stop::Unsupported(w)) = model {
+        return Outcome::Skip(w);
+    }
+    let got = match sut::run_logged(&e.render(), &vars, &vec![]).0 {
+        Ran::Done(r) => r,
+        o => return fail(format!("`{src}`: {}", o.show())),
+    };
+    if !agree(model, &got) {
+        return fail(format!("`{src}` with xs = {:?}{}: the elements in order are {:?}, interpreter gives {}", c.list, c.outer.as_ref().map(|o| format!(", outer x = {o:?}")).unwrap_or_default(), model, got.show()));
+    }
+    // afterwards the outer binding (or its absence) is what it was
+    pass_n(c.list.len() >= 2 || c.outer.is_some(), vec!["heterogeneous-list"])
 }
 
 fn multiset_eq(a: &[V], b: &[V]) -> bool {
@@ -372,6 +412,35 @@ pub fn run(r: &mut Runner) {
             }
         }
         r.sweep("maps-x-forms-x-pure-bodies-unordered", cases, check_map_unordered);
+    }
+    {
+        // lists whose elements are equal-by-value numbers of different types, nulls, strings and nested lists: the
+        // iteration variable must denote *the* current element (type-exact), also when an outer variable of the same
+        // name holds a value that is == to it
+        let alpha = [V::Int(1), V::UInt(1), V::f(1.0), V::Null, V::Int(2), V::s("a"), V::List(vec![V::UInt(1)])];
+        let mut lists: Vec<Vec<V>> = vec![vec![]];
+        let mut frontier: Vec<Vec<V>> = vec![vec![]];
+        for _ in 0..3 {
+            let mut next = vec![];
+            for l in &frontier {
+                for a in &alpha {
+                    let mut l2 = l.clone();
+                    l2.push(a.clone());
+                    next.push(l2);
+                }
+            }
+            lists.extend(next.iter().cloned());
+            frontier = next;
+        }
+        let mut cases = vec![];
+        for l in &lists {
+            for outer in [None, Some(V::Int(1)), Some(V::f(1.0)), Some(V::Null)] {
+                for form in 0..5u8 {
+                    cases.push(Hetero { list: l.clone(), outer: outer.clone(), form });
+                }
+            }
+        }
+        r.sweep("heterogeneous-lists-identity-bodies", cases, check_hetero);
     }
     r.random(
         "nested-two-deep",
